@@ -84,8 +84,31 @@ SPECS = {
 }
 
 
-def apply(chk, rule, table, config=None, only=None, specfn=None):
+import re as _re
+
+
+def aspect_of(problem):
+    """Which clause family a spec problem belongs to, so that each property only alarms on its own clauses:
+    credits (work-credit / metric events), count (Gc count), panic (collector code panics / abnormal exit of a
+    call that must not panic), safety (colours, queues, list shape, destruct/free, frame conditions)."""
+    m = _re.match(r"^\[([a-z-]+)\] ", problem)
+    if m:
+        return m.group(1)
+    if _re.search(r"Gc count", problem):
+        return "count"
+    if _re.search(r"credit|metric event", problem):
+        return "credits"
+    if _re.match(r"^(panics:|exit kind|exit unwind|exit abort|path panics)", problem) or problem.startswith("exit "):
+        return "panic"
+    return "safety"
+
+
+ALL_ASPECTS = frozenset(["safety", "credits", "credits-over", "credits-under", "count", "panic", "reclaim"])
+
+
+def apply(chk, rule, table, config=None, only=None, specfn=None, aspects=None):
     """Evaluate the spec of `table` on every extracted row; one rule instance per row."""
+    aspects = frozenset(aspects) if aspects else ALL_ASPECTS
     config = config or chk.cfg or "default"
     prog, T = engine(config)
     rows = T.get(table)
@@ -95,7 +118,7 @@ def apply(chk, rule, table, config=None, only=None, specfn=None):
     for r in rows:
         if only and not only(r):
             continue
-        probs = fn(r)
+        probs = [p for p in fn(r) if aspect_of(p) in aspects or p.startswith("could not be analysed")]
         if armed(r):
             n += 1
             sample = None
